@@ -201,6 +201,8 @@ var errSimEIO = &fs.PathError{Op: "read", Path: "<sim>", Err: syscall.EIO}
 // every one of these is a failed read, not the end of the stream
 var simReadErrors = map[string]error{
 	"":                   errSimEIO,
+	"eagain":             &fs.PathError{Op: "read", Path: "/dev/stdin", Err: syscall.EAGAIN},
+	"eintr":              syscall.EINTR,
 	"wrapped-eof":        fmt.Errorf("read tcp 10.0.0.1:443: connection lost: %w", io.EOF),
 	"unexpected-eof":     io.ErrUnexpectedEOF,
 	"wrapped-unexpected": fmt.Errorf("short body: %w", io.ErrUnexpectedEOF),
